@@ -299,6 +299,14 @@ func TestReplay(t *testing.T) {
 	if err != nil {
 		t.Fatalf("cannot load %s: %v", p, err)
 	}
+	if env.Test == "TestC03Bulk" {
+		var c BulkCase
+		if _, err := vstat.LoadReplay(p, &c); err != nil {
+			t.Fatalf("cannot decode %s: %v", p, err)
+		}
+		runBulkBoth(t, "TestReplay", c)
+		return
+	}
 	if env.Test == "TestC02Squeeze" || env.Test == "TestC07Squeeze" {
 		var c SqueezeCase
 		if _, err := vstat.LoadReplay(p, &c); err != nil {
